@@ -8,6 +8,7 @@ EXPLANATION = (
     "with the announced size (no other read before it); write_json writes the u64 length of exactly the serialised bytes and then "
     "those bytes (framing symmetric with read_json); the hand-written serde pairs are inverse by construction: NtpDuration "
     "serialises to_seconds() as f64 and deserialises through from_seconds, Counter serialises get() as u64 and deserialises a u64."
+    ' NtpDuration::from_seconds (reader side) shifts the seconds into the upper half only under a guard proving they fit an i32, so saturated published values keep their sign.'
 )
 NOT_DECIDED = ["numeric equality within the stated tolerance (floating point)", "derive-generated serde code is symmetric by construction (trusted)"]
 SK = 'ntpd::daemon::sockets'
